@@ -3,6 +3,7 @@ package props
 
 import (
 	"bytes"
+	"errors"
 	"math/big"
 	"testing"
 
@@ -136,4 +137,13 @@ func hostileCaller() {
 	secp256k1.Base().Double().Negate()
 	secp256k1.NewElement().Base()
 	secp256k1.NewScalar().MinusOne()
+}
+
+// errClass returns the class of a failure (or "error").
+func errClass(err error) string {
+	var f *gen.Failure
+	if errors.As(err, &f) {
+		return f.Class
+	}
+	return "error"
 }
